@@ -255,6 +255,26 @@ struct Cm
     friend bool operator<(const Cm& a, const Cm& b) noexcept { return a.v < b.v; }
 };
 
+// Sp: address-sensitive value that is trivially destructible but NOT trivially copy/move constructible (an inline buffer with a pointer
+// to itself, an intrusive node): relocation must go through its constructors even though nothing has to be destroyed afterwards
+struct Sp
+{
+    u32 v;
+    const Sp* self;
+    explicit Sp(u32 x) noexcept : v(x), self(this) {}
+    Sp(const Sp& o) noexcept : v(o.v), self(this) { verif_assert(o.self == &o, 9011); }
+    Sp(Sp&& o) noexcept : v(o.v), self(this) { verif_assert(o.self == &o, 9012); }
+    Sp& operator=(const Sp& o) noexcept
+    {
+        verif_assert(self == this && o.self == &o, 9013);
+        v = o.v;
+        return *this;
+    }
+    friend bool operator==(const Sp& a, const Sp& b) noexcept { return a.v == b.v; }
+    friend bool operator!=(const Sp& a, const Sp& b) noexcept { return a.v != b.v; }
+    friend bool operator<(const Sp& a, const Sp& b) noexcept { return a.v < b.v; }
+};
+
 // Bs<N>: trivially copyable N-byte value type of alignment 1 (layout family: object sizes that are not powers of two)
 template <usize NB>
 struct Bs
@@ -269,6 +289,10 @@ inline T mk(u64 x)
     if constexpr (std::is_same_v<T, Tr>)
     {
         return Tr(static_cast<u32>(x));
+    }
+    else if constexpr (std::is_same_v<T, Sp>)
+    {
+        return Sp(static_cast<u32>(x));
     }
     else if constexpr (std::is_same_v<T, Cm>)
     {
@@ -301,6 +325,11 @@ inline u64 val(const T& x)
     {
         return x.v;
     }
+    else if constexpr (std::is_same_v<T, Sp>)
+    {
+        verif_assert(x.self == &x, 9010);  // the stored object is where its constructor put it
+        return x.v;
+    }
     else if constexpr (std::is_same_v<T, Cm>)
     {
         return x.v;
@@ -330,7 +359,7 @@ inline bool code_eq(u64 a, u64 b)
     }
 }
 template <class T>
-inline constexpr u64 VMASK = std::is_same_v<T, Tr> ? 0xffffffffull
+inline constexpr u64 VMASK = (std::is_same_v<T, Tr> || std::is_same_v<T, Sp>) ? 0xffffffffull
                              : std::is_same_v<T, Cm> ? 0xffull
                              : sizeof(T) >= 8         ? ~0ull
                                                       : ((1ull << (8 * (sizeof(T) & 7))) - 1);
